@@ -18,9 +18,9 @@ def run(ctx):
         "theorems (byte level): a byte not written since the last truncation at or below it reads as zero; shrink to any size then grow exposes zeros; "
         "writes touch one file; a created file is empty. Block level (M7d, the bytes of a file on disk blocks under the pointer tree of M7): a WRITE shows exactly its bytes, a truncation cuts "
         "(also inside the last block) and growth exposes zeros, a hole-filling READ changes no byte, and after any history the blocks show what the content log says "
-        "(block_level_file_refines_the_content_log). Correspondence: every READ of the server compared byte for byte with the reference",
+        "(block_level_file_refines_the_content_log); with any number of files sharing the disk and blocks passing from file to file through the allocator every file shows exactly its own "
+        "content log (no_file_ever_shows_foreign_bytes), a change of one file changes no byte of another, and that a block handed out holds zero bytes follows from the invariant kept by FreeBlock's zeroing. Correspondence: every READ of the server compared byte for byte with the reference",
         "as C02: written data never contains zero bytes, files are shrunk to aligned and unaligned sizes and re-grown, removed and their blocks recycled "
         "by new files, sparse writes at block-map boundaries; every READ/READLINK reply is compared with the model",
         ["the block-level invariant (free blocks are zero on disk) is not yet modelled"],
-        pending=["the hypothesis FreshOK of the block-level theorems (a block the allocator hands out holds zero BYTES) is discharged at block granularity only: freed_blocks_are_all_zeros (M7) and "
-                 "allocator_stream_is_fresh_and_distinct (M2) speak of whole blocks / index cells; the bytes of a freed DATA block are zeroed by FreeBlock in the code and not in a model"])
+        pending=[])
